@@ -11,6 +11,7 @@ import (
 	"encoding/binary"
 	"flag"
 	"fmt"
+	"math/big"
 	"os"
 	"strconv"
 	"strings"
@@ -86,6 +87,8 @@ func query(bx *boxes, q string) (res string) {
 			res = okf("%d/%d", t, d)
 		case "du":
 			res = okf("%d", s.Stts.GetDur(uint32(arg(1))))
+		case "tc":
+			res = okf("%d", int64(s.Stts.GetTimeCode(uint32(arg(1)), uint32(arg(2)))))
 		case "st":
 			nr, err := s.Stts.GetSampleNrAtTime(arg(1))
 			if err != nil {
@@ -276,6 +279,28 @@ func timesOf(rng *hx.Rng, x *tbl.Ref) []uint64 {
 	return ts
 }
 
+// timescaleOf picks the timescale of a GetTimeCode query: the usual ones (1 kHz, 90 kHz, 10 MHz: 2^32 units are
+// 7 minutes), the extremes 1 and 2^32-1, any uint32; 0 (integer divide by zero) only in the out-of-range stream.
+func timescaleOf(rng *hx.Rng, outOfRange bool) uint32 {
+	switch k := rng.Intn(12); {
+	case k == 0 && outOfRange:
+		return 0
+	case k <= 1:
+		return 1
+	case k == 2:
+		return 1000
+	case k <= 4:
+		return 90000
+	case k <= 6:
+		return 10000000
+	case k == 7:
+		return 0xffffffff
+	case k == 8:
+		return uint32(rng.Range(2, 60000))
+	}
+	return uint32(rng.U64()%0xffffffff) + 1
+}
+
 // queriesOf lists the queries for a table with n samples / c chunks.
 func queriesOf(rng *hx.Rng, r *tbl.Raw, x *tbl.Ref, o qopt) []string {
 	var qs []string
@@ -300,6 +325,7 @@ func queriesOf(rng *hx.Rng, r *tbl.Raw, x *tbl.Ref, o qopt) []string {
 	nums = append(nums, extra...)
 	for _, i := range nums {
 		qs = append(qs, fmt.Sprintf("dt:%d", i), fmt.Sprintf("du:%d", i), fmt.Sprintf("sz:%d", i))
+		qs = append(qs, fmt.Sprintf("tc:%d:%d", i, timescaleOf(rng, o.outOfRange)))
 		if r.HasCtts {
 			qs = append(qs, fmt.Sprintf("ct:%d", i))
 		}
@@ -510,6 +536,14 @@ func fixedCases(rng *hx.Rng) int {
 	// C09_stsc_cache_wrap_refuted: FirstSampleNr of the second run wraps to 1
 	r5 := &tbl.Raw{SttsC: []uint32{10}, SttsD: []uint32{1}, StscMode: 'D', Stsc: [][3]uint32{{1, 0x80000000, 1}, {3, 1, 1}},
 		Uniform: 4, Number: 10, OffKind: 'S', Offs: []uint64{100, 200, 300}}
+	// C09_time_code_pinned_refuted / ex_time_code: decode times of 2^32 units and more (10 MHz: 7 minutes), the last
+	// uint32 sample number of r4 in the largest timescale, timescale 0, sample numbers 0 and past the end
+	r6 := &tbl.Raw{SttsC: []uint32{500}, SttsD: []uint32{10000000}, StscMode: 'D', Stsc: [][3]uint32{{1, 500, 1}},
+		Uniform: 4, Number: 500, OffKind: 'S', Offs: []uint64{100}}
+	total += emitCase("w-stts-timecode", "V", r6, decodedPlan(r6), []string{"tc:431:10000000", "tc:430:10000000", "tc:500:10000000",
+		"tc:500:1", "tc:500:90000", "tc:1:7", "tc:0:10000000", "tc:501:10000000", "tc:4294967295:3", "tc:2:0", "dt:431"})
+	total += emitCase("w-stts-timecode-big", "M", r4, decodedPlan(r4), []string{"tc:4294967295:4294967295", "tc:4294967295:1",
+		"tc:4294967294:1000", "tc:0:1", "tc:0:4294967295"})
 	total += emitCase("w-stsc-cache-wrap", "M", r5, decodedPlan(r5), []string{"fs", "cn:1", "gc:1", "gc:3", "cn:2147483649"})
 	return total
 }
@@ -558,7 +592,7 @@ func fail(site, class string, r *tbl.Raw, q, got, want string) {
 }
 
 var siteOf = map[string]string{
-	"dt": "SttsBox.GetDecodeTime", "du": "SttsBox.GetDur", "st": "SttsBox.GetSampleNrAtTime",
+	"dt": "SttsBox.GetDecodeTime", "du": "SttsBox.GetDur", "tc": "SttsBox.GetTimeCode", "st": "SttsBox.GetSampleNrAtTime",
 	"ct": "CttsBox.GetCompositionTimeOffset", "sy": "StssBox.IsSyncSample", "ns": "StszBox.GetNrSamples",
 	"sz": "StszBox.GetSampleSize", "ts": "StszBox.GetTotalSampleSize", "of": "StcoBox/Co64Box.GetOffset",
 	"cn": "StscBox.ChunkNrFromSampleNr", "gc": "StscBox.GetChunk", "cc": "StscBox.GetContainingChunks",
@@ -595,6 +629,18 @@ func expected(r *tbl.Raw, x *tbl.Ref, q string) string {
 		return okf("%d/%d", x.Start[n-1], x.Dur[n-1])
 	case "du":
 		return okf("%d", x.Dur[arg(1)-1])
+	case "tc":
+		// floor(10^9 * start / timescale) nanoseconds; not defined when that is no int64 (time.Duration)
+		ts, _ := strconv.ParseUint(f[2], 10, 64)
+		if ts == 0 {
+			return ""
+		}
+		v := new(big.Int).Mul(big.NewInt(1000000000), new(big.Int).SetUint64(x.Start[arg(1)-1]))
+		v.Div(v, new(big.Int).SetUint64(ts))
+		if !v.IsInt64() {
+			return ""
+		}
+		return okf("%s", v.String())
 	case "st":
 		t, _ := strconv.ParseUint(f[1], 10, 64)
 		if t < x.Total {
@@ -740,6 +786,9 @@ func searchTable(rng *hx.Rng, r *tbl.Raw, withOOR bool) {
 		}
 		got := query(bx, q)
 		want := expected(r, x, q)
+		if want == "" && strings.HasPrefix(q, "tc:") {
+			continue // the time code is no int64
+		}
 		evals++
 		if q == "fs" {
 			got = strings.Split(strings.TrimPrefix(got, "ok/"), "/")[0]
@@ -775,6 +824,9 @@ func searchTable(rng *hx.Rng, r *tbl.Raw, withOOR bool) {
 		}
 		got := query(bx, q)
 		want := expected(r, x, q)
+		if want == "" && strings.HasPrefix(q, "tc:") {
+			continue
+		}
 		evals++
 		if q == "fs" {
 			got = strings.Split(strings.TrimPrefix(got, "ok/"), "/")[0]
@@ -836,6 +888,17 @@ func search(seed uint64, n int) {
 			curPlan = "decode"
 			fail("SttsBox.GetSampleNrAtTime", "sample-number-wraps-at-2^32", r, "st:8589934589", "ok/0 (nil error)",
 				"4294967296 does not fit uint32: an error")
+		}
+	}
+	// C09_time_code_pinned_refuted on the real code (finding C09-F7, fixed in 423d4e5): one-second samples in a 10 MHz timescale
+	{
+		st := &mp4.SttsBox{SampleCount: []uint32{500}, SampleTimeDelta: []uint32{10000000}}
+		evals++
+		if got := int64(st.GetTimeCode(431, 10000000)); got != 430000000000 {
+			r := &tbl.Raw{SttsC: []uint32{500}, SttsD: []uint32{10000000}, StscMode: 'D', Stsc: [][3]uint32{{1, 500, 1}},
+				Uniform: 4, Number: 500, OffKind: 'S', Offs: []uint64{100}}
+			curPlan = "decode"
+			fail("SttsBox.GetTimeCode", "wrong-value", r, "tc:431:10000000", fmt.Sprintf("ok/%d", got), "ok/430000000000")
 		}
 	}
 	// the same defect through SetSingleSampleDescriptionID(0): the box had neither a single id nor an id slice
